@@ -492,9 +492,9 @@ pub fn run() {
     par_cases("vars-pauli-pairs", n_rand, move |r, i| {
         // small scalar-ish diagrams: isolated spiders and pairs (remove_single / remove_pair paths)
         let mut d = gen_random(r, &DiagParams { max_spiders: 3, max_bnd: 1, pool: PhasePool::Exact, graph_like: false, bare_wires: false, var_prob: 0.8 });
-        if i % 3 == 2 {
+        if i % 2 == 1 {
             // a few variables with numbers around the word-size marks
-            let offset = *r.pick(&[60u32, 61, 62, 125, 126, (1 << 16) - 2]);
+            let offset = *r.pick(&[59u32, 60, 61, 62, 63, 125, 126, (1 << 16) - 2]);
             rewire_vars_from(&mut d, r, 5, 0.8, offset);
         }
         check_desc("vars-pauli-pairs", i, r, &d);
@@ -537,7 +537,7 @@ pub fn run() {
         rewire_vars(&mut d, r, nv, 0.6);
         simps_only("vars-wide-long-sparse", i, r, &d);
     });
-    let nsf = t.pick(60usize, 1_500usize);
+    let nsf = t.pick(160usize, 1_500usize);
     par_cases("vars-scalar-forest", nsf, move |r, i| {
         let nv = *r.pick(&[5u32, 7, 10, 16]);
         let hi = *r.pick(&[40usize, 90, 160]);
